@@ -69,6 +69,13 @@ fn main() {
                         play(&mut g, &mut rng, pol, 16, 0.25);
                     }
                 }
+                "confined" => {
+                    let (c, region) = confined_position(&mut rng);
+                    let gold = rng.chance(0.5);
+                    if g.reset_parsed(&c, gold, 2 + rng.below(10), "confined") {
+                        play_confined(&mut g, &mut rng, &region, 220, 0.02);
+                    }
+                }
                 "shuffle" => {
                     let c = shuffle_position(&mut rng);
                     let gold = rng.chance(0.5);
